@@ -23,7 +23,7 @@ CLAIMED = {
    "Proof of function contracts: lang.InstrSwitch never reaches its panic for any of the closed set of ssa.Instruction kinds (MultiConvert excluded by precondition) and dispatches each kind to the visitor method of that kind. Termination/crash-freedom of the analyses as wholes is not proved.",
    "Trusted: as C05. MultiConvert exclusion relies on loaders using ssa.InstantiateGenerics. Fixpoint termination is a whole-history argument outside function contracts."),
  "C08": ("DESIGN.md 4/C08",
-   "Proof of function contracts: every Do* method of the intra-procedural analysis transfers the marks of each data operand of its instruction kind to the result (quantified over the index for Phi edges and Select states); simpleTransfer/transfer delegate with the same arguments; addReturnEdge adds the edge for every in-range tuple index and never indexes out of range; addCallArgEdge adds the edge to every argument position of every callee node holding the value (map iteration in arbitrary order); FindArg's contract. The composition (markValue alias recursion, worklist fixpoint) is not proved.",
+   "Proof of function contracts: every Do* method of the intra-procedural analysis transfers the marks of each data operand of its instruction kind to the result (quantified over the index for Phi edges and Select states); simpleTransfer/transfer delegate with the same arguments; addReturnEdge adds the edge for every in-range tuple index and never indexes out of range; addCallArgEdge adds the edge to every argument position of every callee node holding the value (map iteration in arbitrary order); FindArg's contract; callCommonMark (marks at a call) marks every argument of the call, creates one mark per result of the callee's signature with the tuple index of that result and applies every such mark to the call value (per-iteration clauses). The composition (markValue alias recursion, worklist fixpoint) is not proved.",
    "Trusted: as C05; assumed frame of (*SummaryGraph).addEdge (modifies only edge records). Not decided: Pre/mergeInto join, RunForwardIterative closure, makeEdgesAt* coverage."),
  "C09": ("DESIGN.md 4/C09",
    "Proof plus exhaustive table conformance: addParamEdgeByPos returns true and records the edge in both directions exactly when both positions are parameters; addReturnEdgeByPos rejects bad positions; PopulateGraphFromSummary calls them for every listed pair and marks the graph; and for EVERY entry of the standard-library summary table whose key resolves against the installed standard library (318 of 338) every listed position exists in the function's go/types signature (one ground obligation per entry). That a summary over-approximates the library function's behaviour is not decided.",
@@ -41,7 +41,7 @@ CLAIMED = {
    "Proof of function contract: escape.instructionLocality returns, for every memory-accessing instruction kind (store, load through any pointer type incl. named ones, channel receive/send, map update/lookup/range/next, type assertion, select), exactly the verdict of derefsAreLocal on the node of the accessed operand, and never classifies an unknown instruction kind as local; EscapeGraph.nodes is immutable after construction (checked frame scan). Soundness of the escape graph w.r.t. executions and schedules is not proved.",
    "Trusted: as C05; assumed contract of NodeGroup.ValueNode (returns the node of the value). Resolve (call-site context) maps the receiver and every nillable argument onto the callee parameter of the matching position (invoke mode shifted by one); known finding 5.12: by-value struct arguments holding pointers are not mapped."),
   "C15": ("DESIGN.md 4/C15",
-   "Proof of function contracts: the escape-graph operations are extensive (they never lower a status nor remove a node or edge) and Merge is an upper bound: AddNode adds exactly the missing node with its intrinsic status and keeps the graph well formed; computeEdgeClosure propagates the source's status to the target, never lowers a status, keeps the node set, leaves edges untouched and CLOSES the graph again (every edge that was closed before, and the edge a->b, is closed afterwards; worklist invariant over a map iterated in arbitrary order); AddEdge adds the edge, closes it and keeps closed edges closed; MergeNodeStatus raises n to at least s and keeps closed edges closed; Edges lists only edges of the graph; Merge(g, h) leaves every node of h at least as escaped in g as in h and lowers nothing in g (for disjoint well-formed graphs; object-level frames of all operations proved); LessEqual answers true only if the statuses are pointwise ordered. Idempotence/commutativity/associativity of Merge as graph equalities, the edge part of LessEqual (bit masks) and monotonicity of the ~40 transfer cases are not proved.",
+   "Proof of function contracts: the escape-graph operations are extensive (they never lower a status nor remove a node or edge) and Merge is an upper bound: AddNode adds exactly the missing node with its intrinsic status and keeps the graph well formed; computeEdgeClosure propagates the source's status to the target, never lowers a status, keeps the node set, leaves edges untouched and CLOSES the graph again (every edge that was closed before, and the edge a->b, is closed afterwards; worklist invariant over a map iterated in arbitrary order); AddEdge adds the edge, closes it and keeps closed edges closed; MergeNodeStatus raises n to at least s and keeps closed edges closed; Edges lists only edges of the graph; Merge(g, h) leaves every node of h at least as escaped in g as in h and lowers nothing in g (for disjoint well-formed graphs; object-level frames of all operations proved); LessEqual answers true only if the statuses are pointwise ordered; in EscapeGraph.Call (instantiation of a callee summary, all callees and local closures havocked) the two status tests of one worklist step are upward closed -- load nodes are brought over for every representative known to pre above Local (or unknown to pre and not Local in g), and a Leaked callee node always leaks its representative -- a single-run sufficient condition for monotonicity in the caller's statuses. Idempotence/commutativity/associativity of Merge as graph equalities, the edge part of LessEqual (bit masks) and monotonicity of the ~40 transfer cases and of Call in the EDGES of its inputs are not proved.",
    "Trusted: as C05; assumed deps contracts (fmt.Sprintf modifies nothing)."),
  "C16": ("DESIGN.md 4/C16",
    "Proof of function contracts, for all inputs and all iterations: stackCompare is the lexicographic comparison of (Block, Ins) sequences (functional correctness, safety, termination) and, as lemmas derived from that contract only, a total preorder compatible with content equality (reflexive, antisymmetric, four transitivity laws); stackSetUnion returns a strictly sorted (duplicate-free) set containing exactly the stacks of both arguments, reports sameAsA exactly when every stack of b already occurs in a, and terminates (three merge loops with inductive invariants); stackPushed returns s ++ [(block, ins)] in a fresh array; dataflowTransfer is the identity on non-defer instructions, resets on RunDefers and reports `repeated` exactly when some incoming stack already contains the defer. worklist discipline of the fixpoint driver AnalyzeFunction: a change flag that is set when the propagation to the successors of a block ends is still set at the end of that block's iteration, and the fixpoint loop is left only when no block of the traversal order is flagged. Equality of the computed sets with the sets of path-wise defer sequences (MOP = MFP for this distributive framework) and termination of the outer fixpoint are not proved.",
